@@ -270,6 +270,10 @@ func runC04(c *run.Ctx) {
 	fixedCases(c, wideCases(), oracleC04)
 	fixedCases(c, boundaryCases(), oracleC04)
 	fixedCases(c, permCases(), oracleC04)
+	fixedCases(c, layoutEqualityCases(), oracleC04)
+	fixedCases(c, collisionCases(), oracleC04)
+	fixedCases(c, timeLocationCases(), oracleC04)
+	fixedCases(c, confusableCases(), oracleC04)
 	c.Note("time zone of this worker: " + time.Local.String())
 }
 
